@@ -234,7 +234,7 @@ theorem resolve_refines_deprecated (sha : ID → Bytes) (ver : Bytes) (events au
     `fullControlSet` marks an event before descending into it, so every descent leaves fewer unmarked conflicted events
     (`SRPanic.fcs_some`); the mainline iterators never descend into an event they are inside of, so the events they are
     inside of are distinct events of the auth map (`SRPanic.mainlineIterP_some`, `firstMainlineP_some`; pigeonhole).
-    Before fix c5e96b7 the acyclicity of the auth graph was a hypothesis here, and a self-citing power-levels event was a
+    Before fix 0d78b57 the acyclicity of the auth graph was a hypothesis here, and a self-citing power-levels event was a
     kernel-checked counter-example (`resolve_cycle_panics`, a fatal stack overflow on the real code): see
     `resolve_cycle_resolves` below.  The result is the model's. -/
 theorem no_panic_resolve (sha : ID → Bytes) (ver : Bytes) (sets : List (List Event)) (auth : List Event) (rej : List ID)
@@ -291,7 +291,7 @@ example : sameOK (resolveConflictsNewP (fun _ => []) b!"2"
 /-- **The formerly fatal input resolves**: a conflicted power-levels event that names itself among its `auth_events`
     (room version 2, whose event IDs are chosen by the sender) sent `fullControlSet` into an unbounded recursion — a fatal
     stack overflow on the real code (VModel/PanicSites.md, D2; `corpus/C18/stateres.ops`).  With the auth event marked
-    before the descent (fix c5e96b7) no site fires and the answer is the model's. -/
+    before the descent (fix 0d78b57) no site fires and the answer is the model's. -/
 theorem resolve_cycle_resolves :
     sameOK (resolveConflictsNewP (fun _ => []) b!"2"
       [[exEv b!"$a:h" b!"m.room.power_levels" [(b!"auth_events", .arr [exRef b!"$a:h"])]],
